@@ -6,6 +6,7 @@ package view
 import (
 	"golang.org/x/telemetry/internal/config"
 	tcounter "golang.org/x/telemetry/internal/counter"
+	"golang.org/x/telemetry/internal/telemetry"
 )
 
 type VerifFileView struct {
@@ -25,4 +26,18 @@ func VerifNewCounterFile(name string, c *tcounter.File, cfg *config.Config) *Ver
 		v.Stacks[x.Name+"\n"+x.Trace] = x.Active
 	}
 	return v
+}
+
+// VerifNewTelemetryReport exposes what the viewer says about each program of a
+// local weekly report: the summary text, in the report's program order.
+func VerifNewTelemetryReport(r *telemetry.Report, cfg *config.Config) ([]string, error) {
+	tr, err := newTelemetryReport(r, cfg)
+	if err != nil {
+		return nil, err
+	}
+	var out []string
+	for _, p := range tr.Programs {
+		out = append(out, string(p.Summary))
+	}
+	return out, nil
 }
